@@ -103,6 +103,15 @@ def step (d : D) : List String → D × String
       let (st, evs) := flush st
       ({ d with net := st }, s!"{showBool ok} {evs}")
     | _, _, _ => (d, "bad-op")
+  | ["needfuel", n, ip, cnt] =>
+    -- the smallest budget of a fixed ladder with which this ping would finish (the state is NOT changed); `none` = not even
+    -- with `fuelBound` (impossible from a state that passes the configuration check: `C08_operation_terminates`)
+    match n.toNat?, parseIp ip, cnt.toNat? with
+    | some n, some ip, some cnt =>
+      let ladder := [32, 64, 128, 256, 512, 1024, fuelBound]
+      let ok := ladder.find? (fun k => !(runOp k { d.net with oof := false } (.ping n ip cnt)).1.oof)
+      (d, match ok with | some k => s!"{k}" | none => "none")
+    | _, _, _ => (d, "bad-op")
   | ["setflag", n] =>
     match n.toNat? with
     | some n => ({ d with net := d.net.modNode n (fun nd => { nd with flag := true }) }, "ok")
